@@ -323,4 +323,39 @@ theorem file_refines_bytes_len (st : State) (i : Nat) (f : File) (hf : st.file? 
   rw [ho]
   rfl
 
+/-! ## Non-vacuity: a concrete history meeting the hypotheses used above
+
+Two files over a non-zero hole source on a 4-sector device with 2-byte sectors: a fragmented
+write through file 0 (three allocator answers), a shrinking truncate into the middle of a sector
+(frees sectors 4 and 1), then a write through file 1 that re-uses sector 4 and fails at its first
+device write (the sector is freed again). -/
+
+def exHole : Hole := { tag := 1, g := 1, m := 1, d := 1, salt := 3, limit := 3, eofStyle := false }
+
+def exHist : List (Op × Oracle) :=
+  [(.new exHole 3, {}), (.new exHole 3, {}),
+   (.write 0 1 [7, 8, 9, 10], { answers := [.range 2 1, .range 4 1, .range 1 1] }),
+   (.trunc 0 2, {}),
+   (.write 1 5 [5], { answers := [.range 4 1], faults := { dw := some (0, 0) } })]
+
+example : ∀ x ∈ exHist, WFOp x.1 := by decide
+example : (after ⟨2, 4⟩ exHist).allocd = [2] ∧
+    (after ⟨2, 4⟩ exHist).files.map (fun f => (f.sectors, f.size)) = [([2], 2), ([], 3)] := by decide
+/-- hypotheses `hf` / `hg` / `hj` of the refinement and isolation theorems -/
+example : ((after ⟨2, 4⟩ exHist).file? 0).map (·.sectors) = some [2] ∧
+    ((after ⟨2, 4⟩ exHist).files[1]?).map (·.size) = some 3 ∧ opTarget (.write 0 0 [1]) ≠ some 1 := by decide
+/-- hypothesis `hout` of `file_refines_bytes_write`: a short write with an allocation failure -/
+example : (step (after ⟨2, 4⟩ exHist) (.write 1 3 [1, 2, 3]) { answers := [.range 4 1, .fail] }).2 =
+    .wrote 1 (some .alloc) := rfl
+/-- hypothesis `hout` of `file_refines_bytes_truncate` -/
+example : (step (after ⟨2, 4⟩ exHist) (.trunc 0 1) ({} : Oracle)).2 = .done none := rfl
+/-- a read through file 0 sees hole-source byte 36 and the written 7 -/
+example : (step (after ⟨2, 4⟩ exHist) (.read 0 0 9) ({} : Oracle)).2 = .read [36, 7] (some .eof) := rfl
+/-- hypothesis `hclosed` of `all_closed_nothing_allocated` -/
+example : ∀ f ∈ (after ⟨2, 4⟩ (exHist ++ [(.close 0, ({} : Oracle)),
+    (.close 1, { faults := { hc := true } })])).files, f.closed = true := by decide
+/-- hypothesis `hr` of `new_sectors_fully_written` -/
+example : (writeToNewSectors ⟨2, 4⟩ exHole ((after ⟨2, 4⟩ exHist).env { answers := [.range 3 2] })
+    [5, 6, 7] 4 1).2 = .ok (3, 3, 2) := rfl
+
 end BbRe.Properties.C15
